@@ -20,25 +20,36 @@ template <class E> struct Client {
     std::function<void(const std::vector<E>&)> assign_all;   // view = ndarray of the view's shape (mutable_indexing_t::operator=), when offered
 };
 
-// one slice per axis: form 0 (None,None,step), form 1 (start,stop,step>0), form 2 integer index
+// one slice per axis: form 0 (None,None,step), form 1 (start,stop,step>0), form 2 integer index,
+// form 3 two-element (start,stop) with in-range bounds that may be given as negative indices, form 4 two-element (None,stop) likewise
 struct SliceSpec { int form; long a, b, c; };
+inline long norm_index(long v, size_t n) { return v < 0 ? v + (long)n : v; }
 inline std::vector<size_t> slice_indices(const SliceSpec& s, size_t n) {   // Python semantics, written from the definition
     std::vector<size_t> r;
     if (s.form == 0) { long st = s.c; if (st > 0) for (long i = 0; i < (long)n; i += st) r.push_back((size_t)i); else for (long i = (long)n - 1; i >= 0; i += st) r.push_back((size_t)i); }
     else if (s.form == 1) { for (long i = s.a; i < s.b; i += s.c) r.push_back((size_t)i); }
+    else if (s.form == 3) { for (long i = norm_index(s.a, n); i < norm_index(s.b, n); i++) r.push_back((size_t)i); }
+    else if (s.form == 4) { for (long i = 0; i < norm_index(s.b, n); i++) r.push_back((size_t)i); }
     else r.push_back((size_t)s.a);
     return r;
 }
 inline SliceSpec make_spec(long form, long p, long q, long st, size_t n) {
-    SliceSpec s; s.form = (int)(form % 3); s.a = s.b = s.c = 0;
+    SliceSpec s; s.form = (int)(form % 5); s.a = s.b = s.c = 0;
     if (s.form == 0) { static const long steps[] = {1, 2, -1, -2, 3, -3}; s.c = steps[st % 6]; }
     else if (s.form == 1) { s.a = p % (long)n; s.b = s.a + 1 + q % ((long)n - s.a); s.c = 1 + st % 2; }
+    else if (s.form == 3) {   // 0 <= start < stop <= n, each bound then possibly spelled as a negative index (stop == n has no negative spelling)
+        long a = p % (long)n, b = a + 1 + q % ((long)n - a);
+        s.a = (st & 1) && a > 0 ? a - (long)n : a; if ((st & 4) && a == 0 && n > 0) s.a = 0;
+        s.b = (st & 2) && b < (long)n ? b - (long)n : b; s.c = 1;
+    } else if (s.form == 4) { long b = 1 + q % (long)n; s.b = (st & 1) && b < (long)n ? b - (long)n : b; s.c = 1; }
     else s.a = p % (long)n;
     return s;
 }
 inline std::string spec_str(const SliceSpec& s) {
     if (s.form == 0) return "[::" + std::to_string(s.c) + "]";
     if (s.form == 1) return "[" + std::to_string(s.a) + ":" + std::to_string(s.b) + ":" + std::to_string(s.c) + "]";
+    if (s.form == 3) return "[" + std::to_string(s.a) + ":" + std::to_string(s.b) + "]";
+    if (s.form == 4) return "[:" + std::to_string(s.b) + "]";
     return "[" + std::to_string(s.a) + "]";
 }
 
@@ -138,23 +149,32 @@ struct ViewTarget : Target {
         env->applied("setup", shape_str(shape), true);
     }
 
+    template <class V> bool shape_ok(Client<E>& c, const V& v) {
+        Shape vs = to_vec(nm::shape(v));
+        if (vs != c.shape) { env->violation("VIEW_SHAPE", nm + " " + c.what + " over shape " + shape_str(shape) + " reports shape " + shape_str(vs) + ", expected " + shape_str(c.shape)); return false; }
+        return true;
+    }
     template <class V> bool finish_view(Client<E>& c, V& v) {
         if constexpr (meta::is_maybe_v<V>) {
             if (!static_cast<bool>(v)) { env->violation("VIEW_REFUSED", nm + " " + c.what + " over shape " + shape_str(shape) + " was refused (Nothing) although it is valid"); return false; }
+            if (!shape_ok(c, *v)) return false;
             bind_view(c, *v); return true;
-        } else { bind_view(c, v); return true; }
+        } else { if (!shape_ok(c, v)) return false; bind_view(c, v); return true; }
     }
     template <size_t R, class V> bool finish_view_rank(Client<E>& c, V& v) {
         if constexpr (meta::is_maybe_v<V>) {
             if (!static_cast<bool>(v)) { env->violation("VIEW_REFUSED", nm + " " + c.what + " over shape " + shape_str(shape) + " was refused (Nothing) although it is valid"); return false; }
+            if (!shape_ok(c, *v)) return false;
             bind_view_rank<R>(c, *v); return true;
-        } else { bind_view_rank<R>(c, v); return true; }
+        } else { if (!shape_ok(c, v)) return false; bind_view_rank<R>(c, v); return true; }
     }
 
     // ---- slices: the per-axis argument types are compile-time, so every form combination is its own instantiation -------
     template <int F> static auto slice_arg(const SliceSpec& s) {
         if constexpr (F == 0) return nmtools_tuple{nm::None, nm::None, (int)s.c};
         else if constexpr (F == 1) return nmtools_tuple{(int)s.a, (int)s.b, (int)s.c};
+        else if constexpr (F == 3) return nmtools_tuple{(int)s.a, (int)s.b};
+        else if constexpr (F == 4) return nmtools_tuple{nm::None, (int)s.b};
         else return (int)s.a;
     }
     template <int F0, int F1> bool make_slice2(Client<E>& c, const SliceSpec* sp) {
@@ -172,10 +192,9 @@ struct ViewTarget : Target {
         if (R != 2 && R != 3) return false;
         SliceSpec sp[3];
         for (size_t i = 0; i < R; i++) sp[i] = make_spec(st.arg(1 + 3 * i), st.arg(2 + 3 * i), st.arg(3 + 3 * i), st.arg(2 + 3 * i) + st.arg(3 + 3 * i), shape[i]);
-        auto code_of = [&] { return sp[0].form * 9 + sp[1].form * 3 + (R == 3 ? sp[2].form : 0); };
-        if (R == 3) {   // only a subset of the 27 form combinations is instantiated; the others fall back to (::s, ::s, ::s)
-            static const int supported[] = {0, 1, 3, 9, 4, 13, 5, 11, 18, 6, 2, 21};
-            bool ok = false; for (int x : supported) ok |= x == code_of();
+        if (R == 3) {   // rank 3: only a subset of the 125 form combinations is instantiated; the others fall back to (::s, ::s, ::s)
+            static const int supported[][3] = {{0,0,0},{0,0,1},{0,1,0},{1,0,0},{0,1,1},{1,1,1},{0,1,2},{1,0,2},{2,0,0},{0,2,0},{0,0,2},{2,1,0},{3,0,0},{0,3,0},{0,0,3},{3,3,3},{4,0,3},{0,4,2},{3,4,0}};
+            bool ok = false; for (auto& x : supported) ok |= x[0] == sp[0].form && x[1] == sp[1].form && x[2] == sp[2].form;
             if (!ok) for (size_t i = 0; i < 3; i++) if (sp[i].form != 0) { sp[i].form = 0; sp[i].c = 1; }
         } else if (sp[0].form == 2 && sp[1].form == 2) sp[1] = SliceSpec{0, 0, 0, 1};
         // the model's map: cartesian product of the per-axis index lists, integer-indexed axes dropped from the view shape
@@ -184,19 +203,21 @@ struct ViewTarget : Target {
         Shape rs = row_major_strides(shape);
         if (R == 2) { for (auto i : ax[0]) for (auto j : ax[1]) c.map.push_back(i * rs[0] + j * rs[1]); }
         else { for (auto i : ax[0]) for (auto j : ax[1]) for (auto k : ax[2]) c.map.push_back(i * rs[0] + j * rs[1] + k * rs[2]); }
-        int code = code_of();
-        if constexpr (Tr::fixed_rank == 2 || Tr::fixed_rank < 0) if (R == 2) switch (code / 3) {
-            case 0: return make_slice2<0, 0>(c, sp); case 1: return make_slice2<0, 1>(c, sp); case 2: return make_slice2<0, 2>(c, sp);
-            case 3: return make_slice2<1, 0>(c, sp); case 4: return make_slice2<1, 1>(c, sp); case 5: return make_slice2<1, 2>(c, sp);
-            case 6: return make_slice2<2, 0>(c, sp); case 7: return make_slice2<2, 1>(c, sp); default: return false;
-        }
-        if constexpr (Tr::fixed_rank == 3 || Tr::fixed_rank < 0) if (R == 3) switch (code) {
-            case 0: return make_slice3<0, 0, 0>(c, sp); case 1: return make_slice3<0, 0, 1>(c, sp); case 3: return make_slice3<0, 1, 0>(c, sp); case 9: return make_slice3<1, 0, 0>(c, sp);
-            case 4: return make_slice3<0, 1, 1>(c, sp); case 13: return make_slice3<1, 1, 1>(c, sp); case 5: return make_slice3<0, 1, 2>(c, sp); case 11: return make_slice3<1, 0, 2>(c, sp);
-            case 18: return make_slice3<2, 0, 0>(c, sp); case 6: return make_slice3<0, 2, 0>(c, sp); case 2: return make_slice3<0, 0, 2>(c, sp); case 21: return make_slice3<2, 1, 0>(c, sp);
-            default: return false;
+        for (size_t i = 0; i < R; i++) probe("slice.form" + std::to_string(sp[i].form));
+        if constexpr (Tr::fixed_rank == 2 || Tr::fixed_rank < 0) if (R == 2) return dispatch2(c, sp);
+        if constexpr (Tr::fixed_rank == 3 || Tr::fixed_rank < 0) if (R == 3) {
+            int f0 = sp[0].form, f1 = sp[1].form, f2 = sp[2].form;
+#define S3(A, B, C) if (f0 == A && f1 == B && f2 == C) return make_slice3<A, B, C>(c, sp);
+            S3(0,0,0) S3(0,0,1) S3(0,1,0) S3(1,0,0) S3(0,1,1) S3(1,1,1) S3(0,1,2) S3(1,0,2) S3(2,0,0) S3(0,2,0) S3(0,0,2) S3(2,1,0) S3(3,0,0) S3(0,3,0) S3(0,0,3) S3(3,3,3) S3(4,0,3) S3(0,4,2) S3(3,4,0)
+#undef S3
         }
         return false;
+    }
+    template <int F0> bool dispatch2b(Client<E>& c, const SliceSpec* sp) {
+        switch (sp[1].form) { case 0: return make_slice2<F0, 0>(c, sp); case 1: return make_slice2<F0, 1>(c, sp); case 2: return make_slice2<F0, 2>(c, sp); case 3: return make_slice2<F0, 3>(c, sp); default: return make_slice2<F0, 4>(c, sp); }
+    }
+    bool dispatch2(Client<E>& c, const SliceSpec* sp) {
+        switch (sp[0].form) { case 0: return dispatch2b<0>(c, sp); case 1: return dispatch2b<1>(c, sp); case 2: return dispatch2b<2>(c, sp); case 3: return dispatch2b<3>(c, sp); default: return dispatch2b<4>(c, sp); }
     }
 
     void add_view(const Step& st) {
